@@ -241,6 +241,19 @@ def family_mixed_kinds(names):
     return trees
 
 
+def family_nnf3(names, with_not=False):
+    """depth-3 trees over AND / OR (optionally negated leaves) in the four association patterns."""
+    leaves = list(names) + ([('NOT', n) for n in names] if with_not else [])
+    trees = []
+    for o1, o2, o3 in itertools.product(('AND', 'OR'), repeat=3):
+        for x, y, z, w in itertools.product(leaves, repeat=4):
+            trees.append((o1, (o2, (o3, x, y), z), w))
+            trees.append((o1, w, (o2, z, (o3, x, y))))
+            trees.append((o1, (o2, z, (o3, x, y)), w))
+            trees.append((o1, (o2, x, y), (o3, z, w)))
+    return trees
+
+
 def random_deep(rnd, names, depth):
     if depth == 0 or rnd.random() < 0.15:
         return rnd.choice(names)
@@ -263,6 +276,10 @@ def batch_family(which, lo, hi, seed):
         trees = family_mixed_kinds(names)
     elif which == 'depth2':
         trees = all_depth2(names)
+    elif which == 'nnf3':
+        trees = family_nnf3(names)
+    elif which == 'nnf3not':
+        trees = family_nnf3(names[:2], True)
     elif which == 'random':
         rnd = random.Random(seed)
         trees = [random_deep(rnd, names + ['D'], rnd.randint(3, 4)) for _ in range(hi - lo)]
@@ -376,11 +393,17 @@ def batches(tier, seed):
         step = n2 // 12 + 1
         b += [('batch_family', ['depth2r', lo, lo + step, seed]) for lo in range(0, n2, step)]
         b += [('batch_family', ['random', 0, 150, seed * 7 + i]) for i in range(2)]
+        n3 = len(family_nnf3(['A', 'B', 'C']))
+        b += [('batch_family', ['nnf3', lo, lo + n3 // 6 + 1, seed]) for lo in range(0, n3, n3 // 6 + 1)]
     else:
         n2 = len(all_depth2(['A', 'B', 'C']))
         step = n2 // 48 + 1
         b += [('batch_family', ['depth2', lo, lo + step, seed]) for lo in range(0, n2, step)]
         b += [('batch_family', ['random', 0, 250, seed * 7 + i]) for i in range(8)]
+        n3 = len(family_nnf3(['A', 'B', 'C']))
+        b += [('batch_family', ['nnf3', lo, lo + n3 // 8 + 1, seed]) for lo in range(0, n3, n3 // 8 + 1)]
+        n4 = len(family_nnf3(['A', 'B'], True))
+        b += [('batch_family', ['nnf3not', lo, lo + n4 // 8 + 1, seed]) for lo in range(0, n4, n4 // 8 + 1)]
     return b
 
 
